@@ -14,16 +14,16 @@ import (
 // library driver (C19, C12, C14): determinism self-test, seeded exploration
 // fanned out over the cores, minimisation, replay verification, evidence.
 type libCheck struct {
-	Prop        string
-	Kind        string
-	Level       string
-	QuickRuns   uint64
+	Prop         string
+	Kind         string
+	Level        string
+	QuickRuns    uint64
 	ThoroughRuns uint64
-	PerBatch    uint64
-	Rule        string
-	Assumptions []string
-	RealStub    map[string]interface{}
-	Protect     []string // spec keys the shrinker must not touch
+	PerBatch     uint64
+	Rule         string
+	Assumptions  []string
+	RealStub     map[string]interface{}
+	Protect      []string // spec keys the shrinker must not touch
 }
 
 func (lc *libCheck) run(a *artefacts, tier string, seed uint64) int {
